@@ -132,7 +132,7 @@ func (x *Exec) call(s *State, f *Frame, ins *ssa.Call) (stepResult, []*State, st
 }
 
 func (x *Exec) finishCall(s *State, f *Frame, ins *ssa.Call, outs []Outcome) (stepResult, []*State, stopPoint) {
-	if len(outs) == 1 && outs[0].Cond == smt.True && outs[0].Panic == "" {
+	if len(outs) == 1 && outs[0].Cond == smt.True && outs[0].Panic == "" && outs[0].Cut == "" {
 		if outs[0].Then != nil {
 			outs[0].Then(s)
 		}
